@@ -463,10 +463,47 @@ def gen_c12(rng, nzones):
         z = {"tr": tr, "ty": ty, "lp": lp, "rule": rule}
         yield from gen_zone_session(rng, z, nprobe=60, do_find=True)
     yield from gen_signed_leap_run_zones(rng, max(4, nzones // 20))
+    yield from gen_c12_second60_at_inserted(rng, max(12, nzones // 6))
     # right/-style zones with a daylight-saving footer: the table is on the leap scale, the rule's instants are UTC
     for i in range(max(8, nzones // 8)):
         r = corpus_rule(i) if i % 2 == 0 else rand_rule(rng)
         yield from gen_rule_zone_session(rng, r, with_table=True, do_find=True, do_findn=(i % 3 == 0), nprobe=40, leaps=True)
+
+
+def gen_c12_second60_at_inserted(rng, n):
+    """A search whose fields carry second 60 and denote the very UTC value an inserted leap second shares with the second after it
+    (minute-aligned on the local clock), with a transition recorded at the record's count R -1 / +0 / +1 / +2: second 60 is the first
+    second of the next minute, so both spellings must find the same instants on both sides of the transition."""
+    for _ in range(n):
+        k = rng.randint(1, 4)
+        lp = rand_leaps(rng, k, start=rng.choice([0, 78796800, rng.randint(0, 10**9)]))
+        i = rng.randrange(k)
+        cprev = lp[i - 1][1] if i > 0 else 0
+        if lp[i][1] != cprev + 1:
+            continue                                                     # only inserted seconds
+        # move the whole table so that the UTC value of record i is a whole minute
+        u = lp[i][0] - cprev
+        shift = (-u) % 60
+        lp = [[r + shift, c] for r, c in lp]
+        if lp[0][0] < 0:
+            continue
+        R = lp[i][0]
+        u = R - cprev
+        offs = rng.sample([0, 3600, -3600, 7200, -18000, 19800, 60, -120], 2)
+        ty = [{"off": offs[0], "dst": 0, "des": B("AAA")}, {"off": offs[1], "dst": 1, "des": B("BBB")}]
+        for dT in (-1, 0, 1, 2):
+            tr = [[R - rng.randint(10**5, 10**6), 1], [R + dT, 0], [R + 5 * 10**6, 1]]
+            yield zone_event({"tr": tr, "ty": ty, "lp": [list(x) for x in lp], "rule": {"k": "none"}})
+            for off in offs:
+                for dl in (0, 60, -60):
+                    f = fields_of_local(u + off + dl - 1)
+                    f60 = dict(f, s=60)
+                    f00 = fields_of_local(u + off + dl)
+                    for ff in (f60, f00, f):
+                        yield {"op": "find", "a": ff}
+                    yield {"op": "findn", "a": dict(f60, n=rng.choice([1, 2, 8]))}
+            for du in (-1, 0, 1):
+                yield {"op": "lookup", "a": {"u": W(u + du), "via": "ref"}}
 
 
 # ---- C13 ----
@@ -621,6 +658,39 @@ def gen_c13_leap_rule_junction(rng, n):
                 tr = [[R - rng.randint(10**6, 10**7), rng.randrange(2)], [R + dT, half]]
                 yield zone_event({"tr": tr, "ty": ty, "lp": [list(x) for x in lp], "rule": r})
                 yield {"op": "lookup", "a": {"u": W(u + rng.choice([-1, 0, 1])), "via": "ref"}}
+
+
+def gen_c13_leap_defect_rule_junction(rng, n):
+    """A leap table that is the zone's only defect (first correction 0 / +-2, a step of 2, records one second too close, a negative
+    first time), a trailing DST rule, and a last transition ON a start / end instant of the rule (-1, 0, +1 s) with the type the rule
+    prescribes there: the specific error is the leap table's - the rule clause holds under some reading of the instant."""
+    for _ in range(n):
+        r = rand_rule(rng, near=False) if rng.random() < 0.5 else corpus_rule(rng.randrange(1000))
+        y = rng.randint(1975, 2090)
+        kind = rng.choice(["S", "E"])
+        u = rule_S(r, y) if kind == "S" else rule_E(r, y)
+        if u < 10**8:
+            continue
+        defect = rng.choice(["first2", "first-2", "first0", "step2", "close", "negtime"])
+        t1 = rng.randint(0, u - 4 * 10**7)
+        if defect == "first2":
+            lp = [[t1, 2]]
+        elif defect == "first-2":
+            lp = [[t1, -2]]
+        elif defect == "first0":
+            lp = [[t1, 0]]
+        elif defect == "step2":
+            lp = [[t1, 1], [t1 + 3 * 10**7, 3]]
+        elif defect == "close":
+            lp = [[t1, 1], [t1 + 2419198, 2]]
+        else:
+            lp = [[-rng.randint(1, 10**6), 1]]
+        half = 1 if kind == "S" else 0                                  # the half of the rule in force from the instant on
+        for dT in (-1, 0, 1, 2):
+            ty = [dict(r["std"]), dict(r["dst"])]
+            hh = half if dT >= 0 else 1 - half
+            tr = [[u - rng.randint(10**6, 10**7), rng.randrange(2)], [u + dT, hh]]
+            yield zone_event({"tr": tr, "ty": ty, "lp": [list(x) for x in lp], "rule": r})
 
 
 # ---- C05 / C06 / C17 ----
@@ -1828,7 +1898,10 @@ def tiny_tzif(rng):
 
 def gen_resolve(rng, n):
     dirpool = ["/usr/share/zoneinfo", "/share/zoneinfo", "/etc/zoneinfo", "/z", "rel", "/a/b", ""]
-    names = ["Europe/Paris", "UTC0", "EST5EDT,M3.2.0,M11.1.0", "localtime", "localtime", "A", "/abs/zone", "x/../y", "UTC", "Bad Name", "EST5", "<-03>3", "posix/UTC"]
+    names = ["Europe/Paris", "UTC0", "EST5EDT,M3.2.0,M11.1.0", "localtime", "localtime", "A", "/abs/zone", "x/../y", "UTC", "Bad Name", "EST5", "<-03>3", "posix/UTC",
+             # names that start with a dot component are relative names like any other (tried under each directory, never opened as they are);
+             # descriptions that name daylight time but give no rules are not complete descriptions: no default rule may be supplied
+             "./Foo", "../etc/localtime", "./Europe/Paris", ".hidden", "..", "./UTC0", "EST5EDT", "CET-1CEST", "EST5EDT4", "<+01>-1<+02>", "EST5EDT,M3.2.0"]
     # names around the usual file-name and path length limits (a TZ value has no such limit of its own)
     longs = ["/".join(["aa"] * k) for k in (85, 86, 100)] + ["b" * k for k in (255, 256, 257, 300)] + ["d/" + "c" * 254, "Zone/" + "e" * 4096]
     for _ in range(n):
